@@ -331,8 +331,8 @@ var ifaceT = reflect.TypeOf((*interface{})(nil)).Elem()
 type fieldSpec struct {
 	tag      string
 	val      interface{}
-	concrete bool // field has the value's own type instead of interface{}
-	typedNil int  // for a nil value: 1 = (*string)(nil), 2 = map[string]interface{}(nil), 3 = []interface{}(nil)
+	concrete bool   // field has the value's own type instead of interface{}
+	typedNil int    // for a nil value: 1 = (*string)(nil), 2 = map[string]interface{}(nil), 3 = []interface{}(nil)
 	decoy    string // a complete tag of another name on the same field (`json:"zz,ignore"`); never selected by the call
 }
 
